@@ -12,7 +12,7 @@ import os
 import shutil
 
 import pngen
-from common import fresh_dir, write_files, HarnessError
+from common import fresh_dir, write_files, HarnessError, min_expired
 from fuzzsim import ddmin
 
 
@@ -75,13 +75,15 @@ def shrink_case(modsim, case, cls, wd):
         entropies = ddmin(entropies, lambda sub: len(sub) >= keep_e and holds(st, orders, sub), max_tests=20)
     # 2. perturbations, extra files, packages
     for key in ("extra_files", "packages"):
-        if st.get(key):
+        if st.get(key) and not min_expired():
             st2 = copy.deepcopy(st)
             st2[key] = {} if key == "extra_files" else []
             if holds(st2, orders, entropies):
                 st = st2
     for key in ("renames", "extra_imports"):
         for m in sorted(st.get(key, {})):
+            if min_expired():
+                break
             st2 = copy.deepcopy(st)
             del st2[key][m]
             if holds(st2, orders, entropies):
